@@ -26,17 +26,26 @@ def main():
     ap.add_argument("--replay", default=None)
     a = ap.parse_args()
     seed = int(os.environ.get("VERIF_SEED", "0") or 0)
+
+    def _leave_tree_clean():
+        # a development run against another tree (VERIF_REPO) must not leave that tree's generated files in /verif
+        if core.REPO != "/repo":
+            from . import translate as tr
+            tr.restore_baseline(os.path.join(core.LEAN_DIR, "CnvVerif", "Generated"))
     try:
         rc = core.run_check(a.prop, a.tier, seed, a.replay)
     except core.Infra as e:
+        _leave_tree_clean()
         print(f"INFRASTRUCTURE FAILURE ({a.prop}): {e}", file=sys.stderr)
         core.shutdown_pool()
         os._exit(2)
     except Exception:
+        _leave_tree_clean()
         traceback.print_exc()
         print(f"INFRASTRUCTURE FAILURE ({a.prop}): harness exception", file=sys.stderr)
         core.shutdown_pool()
         os._exit(2)
+    _leave_tree_clean()
     sys.stdout.flush()
     sys.stderr.flush()
     core.shutdown_pool()
